@@ -45,6 +45,33 @@ type Cfg struct {
 	// IDPSSODescriptor (RoleDescriptor, SPSSODescriptor, AttributeAuthorityDescriptor, ...). They are
 	// not trust anchors for SSO responses, so they are NOT part of the abstract configuration.
 	OtherRoleCerts []int `json:",omitempty"`
+	// CertLayout: how certificate text is laid out in the configuration (as metadata files and PEM
+	// bodies have it): 0 plain base64, 1 wrapped at 64 columns with newline + indentation, 2 CRLF and tabs,
+	// 3 leading/trailing blank lines. White space is not part of the certificate.
+	CertLayout int `json:",omitempty"`
+}
+
+func layoutCert(b64 string, layout int) string {
+	wrap := func(sep string) string {
+		var sb strings.Builder
+		for i := 0; i < len(b64); i += 64 {
+			j := i + 64
+			if j > len(b64) {
+				j = len(b64)
+			}
+			sb.WriteString(sep + b64[i:j])
+		}
+		return sb.String()
+	}
+	switch layout {
+	case 1:
+		return wrap("\n        ") + "\n      "
+	case 2:
+		return wrap("\r\n\t")
+	case 3:
+		return "\n\n  " + b64 + "  \n\n"
+	}
+	return b64
 }
 
 func defaultCfg() Cfg {
@@ -121,7 +148,7 @@ func (c Cfg) SP() *saml.ServiceProvider {
 	for _, k := range kds {
 		kd := saml.KeyDescriptor{Use: k.Use}
 		for _, x := range k.Certs {
-			kd.KeyInfo.X509Data.X509Certificates = append(kd.KeyInfo.X509Data.X509Certificates, saml.X509Certificate{Data: certB64(x)})
+			kd.KeyInfo.X509Data.X509Certificates = append(kd.KeyInfo.X509Data.X509Certificates, saml.X509Certificate{Data: layoutCert(certB64(x), c.CertLayout)})
 		}
 		desc.KeyDescriptors = append(desc.KeyDescriptors, kd)
 	}
@@ -140,7 +167,7 @@ func (c Cfg) SP() *saml.ServiceProvider {
 	}
 	switch c.Trust {
 	case tPinned:
-		s := certB64(c.C)
+		s := layoutCert(certB64(c.C), c.CertLayout)
 		sp.IDPCertificate = &s
 	case tFinger:
 		fp := fingerprintOf(c.C)
